@@ -39,12 +39,12 @@ ASSUMPTIONS = ["'unloading has completed' = the awaitable returned by overlay.un
                "the endpoint itself stays open (other overlays may use it); only the overlay's own sockets must be closed"]
 REACH = ["unload_with_pending_tasks", "unload_with_open_exit_transports", "unload_with_outstanding_caches", "late_datagrams_delivered",
          "register_after_unload_refused", "tm_duplicate_name_refused", "tm_replace_ordered", "tm_slow_cleanup", "scenario:tunnel", "scenario:dht",
-         "scenario:attestation", "scenario:identity", "scenario:multi", "scenario:service", "scenario:dhtcrawl", "scenario:bcast", "create_sent_to_overlay_being_unloaded",
+         "scenario:attestation", "scenario:identity", "scenario:multi", "scenario:service", "scenario:dhtcrawl", "scenario:bcast", "scenario:exitrace", "create_sent_to_overlay_being_unloaded",
          "script_operation_abandoned_after_unload"]
 
 SCN = ["community", "bcast", "discovery", "dht", "dhtdiscovery", "tunnel", "hidden", "pex", "attestation", "identity", "multi", "dhtcrawl",
        "service"]
-STEPS = {"community": 5, "bcast": 7, "discovery": 3, "dht": 5, "dhtdiscovery": 7, "tunnel": 5, "hidden": 5, "pex": 5, "attestation": 3,
+STEPS = {"community": 5, "bcast": 7, "exitrace": 3, "discovery": 3, "dht": 5, "dhtdiscovery": 7, "tunnel": 5, "hidden": 5, "pex": 5, "attestation": 3,
          "identity": 3, "multi": 8, "dhtcrawl": 3, "service": 6}
 
 
@@ -55,6 +55,12 @@ def cases(tier: str, base_seed: int):  # noqa: ANN201
         rng = random.Random(f"c11tm/{base_seed}/{i}")
         yield {"scenario": "tm", "seed": base_seed + 500 + i, "knobs": {"timer_jitter": rng.choice([0.0, 0.001])},
                "ops": [_tm_op(rng) for _ in range(rng.choice([4, 8, 20]))]}
+    # the unload chases the first data packet of a circuit that ends at the victim (remove_tunnel_delay 0)
+    for gap in (0.0, 1e-6, 1e-4, 1e-3):
+        for iters in (0, 1, 2, 3, 5):
+            n += 1
+            yield {"scenario": "exitrace", "seed": base_seed + n, "knobs": {"lat_jit": 0.0, "sock_open_yields": iters % 3}, "node": 0, "step": 1,
+                   "offset": 0.0, "gap": gap, "iters": iters}
     # an unload in the middle of an application-driven DHT crawl (requests outstanding, candidates left)
     for off in (0.02, 0.1, 0.5, 1.5, 4.0, 6.0):
         n += 1
